@@ -8,6 +8,9 @@ import QV.Model.Export
   → {"ok": calls | text} or {"error": msg}
 `c13.parse`: {"text":..} → {"decl": {...}|null, "ops": [...]|null}
 `c13.fmt2f`: {"neg":..,"num":"..","den":".."} → {"text":..}
+`c13.domain`: circuit as for `c13.export` → the hypotheses of `C13_full` / `qasm_asis_resolves`
+  ({"wellNamed","paramsPlain","qasmExportable","wf"}) and their proved consequences evaluated on
+  the model ({"readable","nodup"})
 -/
 namespace QV.Drive.C13
 open Lean QV QV.Export QV.Drive
@@ -115,11 +118,24 @@ def fmt_ (j : Json) : R Json := do
   | some n, some d => pure (Json.mkObj [("text", txt (fmt2f { neg := neg, num := n, den := d }))])
   | _, _ => throw "bad number"
 
+def domain_ (j : Json) : R Json := do
+  let q := getQuirks j
+  let fv ← parseFVals j
+  let c ← parseCirc j
+  pure (Json.mkObj [
+    ("wellNamed", toJson (wellNamed c)),
+    ("paramsPlain", toJson (paramsPlain c.gates)),
+    ("qasmExportable", toJson (c.gates.all fun g => qasmExportable g.cls)),
+    ("wf", toJson (c.gates.all fun g => gateWF fv c.numQubits g)),
+    ("readable", toJson (qasmReadable q fv c)),
+    ("nodup", toJson (decide (qasmFormals q c).Nodup))])
+
 def handle (op : String) (j : Json) : Option (Except String Json) :=
   match op with
   | "c13.export" => some (export_ j)
   | "c13.parse" => some (parse_ j)
   | "c13.fmt2f" => some (fmt_ j)
+  | "c13.domain" => some (domain_ j)
   | _ => none
 
 end QV.Drive.C13
